@@ -363,6 +363,22 @@ func genCase(t *rapid.T) Case {
 		top := c.Mods[0].Nodes[0]
 		top.Kids = append([]*sg.Node{outer}, top.Kids...)
 	}
+	nested := g.Chance(1, 3, "nestgadget") && len(c.Mods[0].Nodes) > 0
+	if nested {
+		// a choice inside a case of another choice, mandatory leaves in the outer case and in the nested case: the outer
+		// case is active as soon as any node of it exists, also one that belongs to the nested choice
+		str := func() *sg.TypeSpec { return &sg.TypeSpec{Name: "string"} }
+		ml := func(name string) *sg.Node { return &sg.Node{Kind: "leaf", Name: name, Type: str(), Mandatory: "true"} }
+		ol := func(name string) *sg.Node { return &sg.Node{Kind: "leaf", Name: name, Type: str()} }
+		inner := &sg.Node{Kind: "choice", Name: "gn-inner", Kids: []*sg.Node{
+			{Kind: "case", Name: "gn-cp", Kids: []*sg.Node{ol("gn-p"), ml("gn-pm")}},
+			{Kind: "case", Name: "gn-cq", Kids: []*sg.Node{ol("gn-q")}}}}
+		box := &sg.Node{Kind: "container", Name: "gn-box", Kids: []*sg.Node{{Kind: "choice", Name: "gn-outer", Kids: []*sg.Node{
+			{Kind: "case", Name: "gn-cx", Kids: []*sg.Node{ol("gn-xa"), ml("gn-xm"), inner}},
+			{Kind: "case", Name: "gn-cy", Kids: []*sg.Node{ol("gn-y")}}}}}}
+		top := c.Mods[0].Nodes[0]
+		top.Kids = append([]*sg.Node{box}, top.Kids...)
+	}
 	w := newWorld(c.Mods)
 	if w == nil {
 		return c
@@ -370,6 +386,31 @@ func genCase(t *rapid.T) Case {
 	_, tops := w.tops()
 	x := &gen{g, w}
 	c.Data = x.kids(tops, 4)
+	if nested && g.Chance(3, 4, "nestdata") {
+		pats := [][]string{{"gn-p"}, {"gn-p", "gn-pm"}, {"gn-p", "gn-xm"}, {"gn-p", "gn-pm", "gn-xm"}, {"gn-xa", "gn-p"}, {"gn-q", "gn-xm"}, {"gn-q"}, {"gn-y"}, {}, {"gn-pm"}, {"gn-xa", "gn-xm"}}
+		box := &D{Name: "gn-box"}
+		for _, n := range pats[g.Pick(len(pats), "nestpat")] {
+			box.Kids = append(box.Kids, &D{Name: n, Vals: []string{"v"}})
+		}
+		top := c.Mods[0].Nodes[0]
+		var topD *D
+		for _, d := range c.Data {
+			if d.Name == top.Name {
+				topD = d
+			}
+		}
+		if topD == nil {
+			topD = &D{Name: top.Name}
+			c.Data = append(c.Data, topD)
+		}
+		var kept []*D
+		for _, k := range topD.Kids {
+			if k.Name != "gn-box" {
+				kept = append(kept, k)
+			}
+		}
+		topD.Kids = append(kept, box)
+	}
 	// the gadget's own data: every combination of sibling / active case / container / required node
 	if top := c.Mods[0].Nodes[0]; len(top.Kids) > 0 && top.Kids[len(top.Kids)-1].Name == "gx-server" && g.Chance(2, 3, "gdata") {
 		gad := top.Kids[len(top.Kids)-1]
